@@ -23,9 +23,10 @@ FUNCTIONS = c05.FUNCTIONS + ['ParseMCNPCell.parse_lat_kw / parse_fill_kw (ranges
 
 
 def make(task):
-    sd, dims, variant, skew = task
+    sd, dims, variant, skew = task[:4]
+    cellform, second = (task[4], task[5]) if len(task) > 4 else ('planes', False)
     rnd = random.Random(sd)
-    return gen.lattice_deck(rnd, dims=dims, variant=variant, skew=skew)
+    return gen.lattice_deck(rnd, dims=dims, variant=variant, skew=skew, cellform=cellform, second=second)
 
 
 def worker(task):
@@ -42,6 +43,12 @@ def tasks_for(tier):
         variant = 'array' if i % 4 else 'option'
         skew = (i % 5 == 0) and (dims == 2 or (tier != 'quick' and dims == 3))
         out.append((base + i, dims, variant, skew))
+    # unit cells written with the facets of a box (or the box itself); two different lattices in one deck
+    m_ = 8 if tier == 'quick' else 120
+    for i in range(m_):
+        dims = 1 + i % 3
+        form = ['facets', 'body', 'facets', 'planes'][i % 4]
+        out.append((base + 1000 + i, 3 if form == 'body' else dims, 'array' if i % 3 else 'option', False, form, form == 'planes'))
     return out
 
 
